@@ -155,6 +155,9 @@ func (l *Ledger) closed(fd int, who string, err error) {
 	if who == "fw" {
 		switch {
 		case st == nil:
+			if fd >= 0 {
+				l.violate("fd:unowned-close", "close(%d) by the framework: it never created descriptor %d (a zero or stale value was closed)", fd, fd)
+			}
 		case st.owner == "":
 			l.violate("fd:doubleclose", "close(%d) by the framework: descriptor %d (%s) had already been closed", fd, fd, st.kind)
 		case st.owner == "user":
@@ -552,6 +555,10 @@ func EpollCreate1(flag int) (fd int, err error) {
 		return real.EpollCreate1(flag)
 	}
 	sched.Point("epoll_create1", 0)
+	if e, ok := errnoByName[deviation("epoll_create1", -1, 0)]; ok {
+		L.log("epoll_create1", -1, 0, -1, e, "fw", real.ErrnoName(e))
+		return -1, e
+	}
 	fd, err = real.EpollCreate1(flag)
 	L.log("epoll_create1", fd, 0, fd, err, "fw", "")
 	if err == nil {
@@ -566,6 +573,10 @@ func Eventfd(initval uint, flags int) (fd int, err error) {
 		return real.Eventfd(initval, flags)
 	}
 	sched.Point("eventfd", 0)
+	if e, ok := errnoByName[deviation("eventfd", -1, 0)]; ok {
+		L.log("eventfd", -1, 0, -1, e, "fw", real.ErrnoName(e))
+		return -1, e
+	}
 	fd, err = real.Eventfd(initval, flags)
 	L.log("eventfd", fd, 0, fd, err, "fw", "")
 	if err == nil {
